@@ -199,6 +199,29 @@ def negated_count(f, neg=False):
     return False
 
 
+def universal_numq_count(f, neg=False):
+    """a numeric quantifier that is universal in negation normal form (forall int at positive polarity, exists int at
+    negative polarity, either below iff/xor) binds the number argument of a count atom -- the solver instantiates such
+    quantifiers with a few chosen values only (open finding)"""
+    k = f[0]
+    if k == "not":
+        return universal_numq_count(f[1], not neg)
+    if k in ("and", "or"):
+        return any(universal_numq_count(x, neg) for x in f[1:])
+    if k == "implies":
+        return universal_numq_count(f[1], not neg) or universal_numq_count(f[2], neg)
+    if k in ("iff", "xor"):
+        return any(universal_numq_count(x, True) or universal_numq_count(x, False) for x in f[1:])
+    if k in ("forall", "exists"):
+        return universal_numq_count(f[5], neg)
+    if k in ("forallint", "existsint"):
+        universal = (k == "forallint") != neg
+        if universal and any(x[0] == "count" and x[3] == ["v", f[1]] for x in fml.walk(f[2])):
+            return True
+        return universal_numq_count(f[2], neg)
+    return False
+
+
 def judge(case):
     g, f = case["grammar"], case["formula"]
     start = case.get("start_symbol")
@@ -259,6 +282,11 @@ def judge(case):
             # a recurrence is reported as a plain solution:violates_constraint)
             elif negated_count(f):
                 root_cause = ":negated_count"
+            elif universal_numq_count(f):
+                root_cause = ":universal_numq_count"
+            elif start and start in rt.reach(cg).get(start, set()) and any(x[0] in ("forall", "exists") and x[1] == start for x in fml.walk(f)):
+                # open finding: a quantifier over the requested, recursive start symbol itself
+                root_cause = ":quantifier_over_recursive_requested_start_symbol"
             viol.append({"sig": "solution:violates_constraint%s" % root_cause, "index": i, "constraint": obs["text"], "string": s,
                          "template": case["template"], "settings": case["settings"]})
             break
